@@ -7,6 +7,8 @@ import (
 	"context"
 	"crypto/ecdsa"
 	"fmt"
+	"os"
+	"regexp"
 	"runtime/debug"
 	"sort"
 	"strings"
@@ -43,6 +45,8 @@ type Config struct {
 	// AutoFlush: a parked update is followed at once by a frame of the sender's session
 	// and one processing step, so that at most one update is parked at any time.
 	AutoFlush bool `json:"autoflush"`
+	// Locks: record, per step, every lock operation of the hagall packages (class and mode)
+	Locks bool `json:"locks"`
 }
 
 type Conn struct {
@@ -114,7 +118,12 @@ func NewWorld(cfg Config) *World {
 		out:      map[int][]M{},
 		ev:       newEvents(),
 	}
-	verifrt.SetInterceptorMask(w.ev, 1<<uint(verifrt.OpRUnlock))
+	if cfg.Locks {
+		w.ev.record = true
+		verifrt.SetInterceptorMask(w.ev, verifrt.MaskAll)
+	} else {
+		verifrt.SetInterceptorMask(w.ev, 1<<uint(verifrt.OpRUnlock))
+	}
 	w.gaugeBase = models.VerifSessionGauge()
 	return w
 }
@@ -309,7 +318,10 @@ func (w *World) Step(i int, st M) (M, error) {
 			res = stepResult{ret: "closed"}
 			break
 		}
-		res = protect(func() error { c.vc.Handler().HandleDisconnect(fmt.Errorf("harness: %s", gets(st, "cause"))); return nil })
+		res = protect(func() error {
+			c.vc.Handler().HandleDisconnect(fmt.Errorf("harness: %s", gets(st, "cause")))
+			return nil
+		})
 		c.life = "closed"
 	default:
 		return nil, fmt.Errorf("unknown step kind %q", kind)
@@ -318,6 +330,9 @@ func (w *World) Step(i int, st M) (M, error) {
 		if c.sc.bad != "" {
 			res = stepResult{ret: "harness", note: c.sc.bad}
 		}
+	}
+	if w.cfg.Locks {
+		rec["locks"] = w.ev.takeLog()
 	}
 	rec["ret"] = res.ret
 	if res.note != "" {
@@ -666,6 +681,72 @@ type events struct {
 	mu     gosync.Mutex
 	cond   *gosync.Cond
 	counts map[string]int
+	record bool
+	log    [][]any
+}
+
+// lockClass names the mutex a lock operation works on: the type taken from the calling
+// function plus the receiver expression found on the source line of the call.
+var (
+	classMu    gosync.Mutex
+	classCache = map[string]string{}
+	srcCache   = map[string][]string{}
+	lockRe     = regexp.MustCompile(`([A-Za-z_][A-Za-z0-9_]*(?:\.[A-Za-z_][A-Za-z0-9_]*)*)\.(?:R?Lock|R?Unlock)\(\)`)
+)
+
+func lockClass(ev *verifrt.Event) string {
+	key := fmt.Sprintf("%s:%d", ev.File, ev.Line)
+	classMu.Lock()
+	defer classMu.Unlock()
+	if c, ok := classCache[key]; ok {
+		return c
+	}
+	lines, ok := srcCache[ev.File]
+	if !ok {
+		b, _ := os.ReadFile(ev.File)
+		lines = strings.Split(string(b), "\n")
+		srcCache[ev.File] = lines
+	}
+	field := "?"
+	// the reported line can be off by one or two (inlined shim frames): look around it for a call of this operation
+	want := "." + ev.Op.String() + "()"
+	for _, d := range []int{0, 1, -1, 2, -2, 3} {
+		i := ev.Line - 1 + d
+		if i < 0 || i >= len(lines) || !strings.Contains(lines[i], want) {
+			continue
+		}
+		if m := lockRe.FindStringSubmatch(lines[i]); m != nil {
+			parts := strings.Split(m[1], ".")
+			field = strings.Join(parts[1:], ".")
+			if field == "" {
+				field = m[1]
+			}
+			break
+		}
+	}
+	typ := ev.Fn
+	if i := strings.Index(typ, "(*"); i >= 0 {
+		typ = typ[i+2:]
+		if j := strings.Index(typ, ")"); j >= 0 {
+			typ = typ[:j]
+		}
+	} else if i := strings.Index(typ, "."); i >= 0 {
+		typ = typ[:i]
+	}
+	c := typ + "." + field
+	classCache[key] = c
+	return c
+}
+
+func (e *events) takeLog() [][]any {
+	e.mu.Lock()
+	defer e.mu.Unlock()
+	l := e.log
+	e.log = nil
+	if l == nil {
+		l = [][]any{}
+	}
+	return l
 }
 
 func newEvents() *events {
@@ -679,6 +760,12 @@ func (e *events) key(mu string, op verifrt.Op) string { return mu + "/" + op.Str
 func (e *events) Before(ev *verifrt.Event) {}
 
 func (e *events) After(ev *verifrt.Event) {
+	if e.record {
+		cls := lockClass(ev)
+		e.mu.Lock()
+		e.log = append(e.log, []any{cls, ev.Op.String(), ev.G, fmt.Sprintf("%x", ev.Mu), ev.Fn})
+		e.mu.Unlock()
+	}
 	if ev.Op != verifrt.OpRUnlock {
 		return
 	}
